@@ -10,7 +10,7 @@ RULE = ('[history cases: two in-process runs sharing one defaults list, the firs
         '.svn …), --ignore_dir additions, non-identifier and node_modules dirs, unrelated files; materialised in shuffled '
         'creation order; options: -k / --usecompiled / neither, one or several --path / --test-path roots (nested, '
         'duplicated, the scratch root itself); files snapshotted (sha1) before and after; most cases call '
-        'get_options + remove_stale_bytecode in-process, a subset runs the CLI with --list-tests; '
+        'get_options + remove_stale_bytecode in-process (every fourth of them with modules registered in sys.modules whose __file__ is one of the compiled files), a subset runs the CLI with --list-tests; '
         'non-trivial = at least one orphan and one non-orphan compiled file, or a pruned directory containing a compiled file')
 TRUSTED_BASE = ['os.walk / os.unlink / the file system are external; symlinked directories are generated and walked like directories']
 ASSUMPTIONS = ['"searched source directory" = what the cleanup walk visits (test paths minus --ignore_dir and __pycache__), see DESIGN C15',
@@ -171,11 +171,11 @@ def shrink_candidates(c):
             yield dict(c, roots=c['roots'][:i] + c['roots'][i + 1:])
 
 
-TECHNIQUE = ('Coq proofs over a directory-tree model of remove_stale_bytecode (Bytecode.v, BytecodeFacts.v, P_C15.v) + '
+TECHNIQUE = ('Coq proofs over a directory-tree model of remove_stale_bytecode (Bytecode.v, BytecodeFacts.v, BytecodeAfter.v, P_C15.v) + '
              'correspondence check on materialised trees with before/after snapshots')
 LEVEL_TEXT = ('Unbounded theorems over all trees: unlinked <=> orphaned .pyc/.pyo directly in a walked, unpruned directory '
               '(both directions, so completeness too), suffix characterisation, never inside ignored/__pycache__ directories, '
-              '-k/--usecompiled => nothing. The model is compared with the real cleanup (in-process through get_options, and '
+              '-k/--usecompiled => nothing; a second cleanup of the tree left behind removes nothing and every non-orphan entry is kept. The model is compared with the real cleanup (in-process through get_options, and '
               'through the CLI) on every run, and the flat statement c15_ok plus "no other file removed, changed or created" is '
               'evaluated in Coq on the before/after snapshots.')
 LEVEL_NOTE = ('os.walk/unlink and symlinks are outside the model; that unlink removes exactly the named file is the OS\'s contract, '
